@@ -456,39 +456,6 @@ fn sweep_float(st: &Stats, spec: &super::base::TableSpec, f32_too: bool) {
     });
 }
 
-/// steep segments with explicit (integer, f32-exact) coordinates through the float clauses in f64 and f32:
-/// the division point must lie in both bounding boxes and be common to both segments. This is where a
-/// division point can share its x with a left end point (the one-ulp bump of divide_segment), for positive
-/// and for negative x.
-fn sweep_steep_float(st: &Stats, name: &str, segs: &[(V, V)], dx: i64) {
-    let pts: Vec<(P, P)> = segs.iter().map(|&(a, b)| (((a.0 + dx) as f64, a.1 as f64), ((b.0 + dx) as f64, b.1 as f64))).collect();
-    st.family(&format!("{name}: {} steep segments shifted by {dx} in x, {} ordered pairs x {{different, same}} operand, float clauses in f64 and f32", pts.len(), pts.len() * pts.len()));
-    (0..pts.len()).into_par_iter().for_each(|i| {
-        let mut loc = Local::default();
-        let (a, b) = pts[i];
-        for &(c, d) in pts.iter() {
-            for same in [false, true] {
-                loc.states += 1;
-                loc.transitions += 2;
-                if proper_cross((a, b), (c, d)) {
-                    loc.nontrivial += 1;
-                }
-                let mut cl = check_float::<f64>(a, b, c, d, same);
-                let g = |p: P| (p.0 as f32, p.1 as f32);
-                cl.extend(check_float::<f32>(g(a), g(b), g(c), g(d), same).into_iter().map(|s| format!("{s} (f32)")));
-                for cla in cl {
-                    loc.violation(
-                        &cla,
-                        format!("steepfloat:{:?}-{:?}|{:?}-{:?}|same={same}", a, b, c, d),
-                        json!({"prop": "C16", "kind": "steepfloat", "a": [a.0, a.1], "b": [b.0, b.1], "c": [c.0, c.1], "d": [d.0, d.1], "same": same}),
-                    );
-                }
-            }
-        }
-        st.merge(&loc);
-    });
-}
-
 pub fn replay(case: &Value, verbose: bool) -> Vec<String> {
     if case["kind"] == "steepfloat" {
         let v = |k: &str| (case[k][0].as_f64().unwrap(), case[k][1].as_f64().unwrap());
